@@ -524,11 +524,12 @@ impl TaskEmitter {
         let verif_ctx = format!("{}:{}", event.session_id, event.seq);
         #[cfg(rip_verif)]
         rip_kernel::verif::point("emit.before_publish", &verif_ctx);
+        // Record first, then publish, both under the buffer lock (see session::emit_event).
+        let mut guard = self.events.lock().await;
+        guard.push(event.clone());
         let _ = self.sender.send(event.clone());
         #[cfg(rip_verif)]
         rip_kernel::verif::point("emit.after_publish", &verif_ctx);
-        let mut guard = self.events.lock().await;
-        guard.push(event.clone());
         let _ = self.event_log.append(&event);
     }
 }
